@@ -17,7 +17,7 @@ from ..ref.swshadow import BufferPool, expected_outputs, encode_actions
 ID = "C18"
 LEVEL = "exploration"
 TECHNIQUE = "model-based stateful testing: Hypothesis-drawn and exhaustively enumerated op histories against a buffer-pool model, byte-level"
-LEVEL_TEXT = ("Exploration of operation histories: every history of up to 4 (quick) / 5-6 (thorough) operations over a 10-letter alphabet is "
+LEVEL_TEXT = ("Exploration of operation histories: every history of up to 4 (quick) / 5 (thorough) operations over a 12-letter alphabet is "
               "enumerated for pool sizes 0..2 (quick) / 0..4 (thorough), and Hypothesis draws histories of up to 60 operations for pool "
               "sizes 0..4; each is run against the real switch through its byte-level connection and judged step by step against an "
               "independent buffer-pool model. The property is about operation histories of a small state machine, so bounded exhaustive "
@@ -39,8 +39,8 @@ ASSUMPTIONS = [
   "a barrier request follows every state-changing controller message, so no ordering freedom of the switch is judged",
 ]
 EXHAUSTIVE_SCOPE = {
-  "quick": "all histories of length 1..4 over the 10-op alphabet _ALPHABET, for max_buffers in {0,1,2}, miss_send_len 20",
-  "thorough": "all histories of length 1..6 over the 10-op alphabet _ALPHABET for max_buffers 2, and length 1..5 for max_buffers in {0,1,3,4}, miss_send_len 20",
+  "quick": "all histories of length 1..4 over the 12-op alphabet _ALPHABET, for max_buffers in {0,1,2}, miss_send_len 20",
+  "thorough": "all histories of length 1..5 over the 12-op alphabet _ALPHABET for max_buffers in 0..4, miss_send_len 20",
 }
 
 PORTS = [1, 2, 3, 4]
@@ -60,6 +60,25 @@ def _frame(dst, port, length, fill):
   hdr = _mac_dst(dst) + bytes([0x02, 0, 0, 0, 0x02, port & 0xff]) + b"\x88\xb5"
   n = max(0, length - 14)
   return hdr + bytes(((fill + i) & 0xff) for i in range(n))
+
+
+def _model_acts(acts):
+  """op-record action lists -> the tuples pvf.ref.swshadow understands"""
+  out = []
+  for a in acts:
+    if a[0] == "set_dl_dst":
+      out.append(("set_dl_dst", bytes([0x02, 0, 0, 0, 0x0e, a[1] & 0xff])))
+    else:
+      out.append(tuple(a))
+  return out
+
+
+def _split_bad(acts):
+  """(actions before the first action the switch cannot execute, whether there is one)"""
+  for i, a in enumerate(acts):
+    if a[0] in ("bad", "vendor"):
+      return acts[:i], True
+  return acts, False
 
 
 def _match_dst(k):
@@ -150,7 +169,7 @@ class _Run(object):
       self.fail("packet-in-total-len", "%s: packet-in for a %d-byte frame says total_len %d (data %d bytes, configured length %d, buffer %s)" % (
           kind, len(frame), m["total_len"], len(data), cfg_len, "none" if bid == cb.NO_BUFFER else bid))
     if bid == cb.NO_BUFFER:
-      occupied = len(pool.out)
+      occupied = len(pool.out) + len(pool.limbo)      # packets a refused message may have left in their slots count as possibly there
       if occupied < self.maxb:
         self.fail("unbuffered-while-slot-free", "%s: packet-in without buffer id although only %d of %d buffers are in use" % (
             kind, occupied, self.maxb), kind=kind)
@@ -191,16 +210,21 @@ class _Run(object):
       live = pool.outstanding()
       if live:
         return live[i % len(live)], "live"
-      k = "never"
+      k = "limbo"
+    if k == "limbo":
+      lim = sorted(pool.limbo)
+      if lim:
+        return lim[i % len(lim)], "limbo"
+      k = "used"
     if k == "used":
-      stale = pool.stale()
+      stale = [b for b in pool.stale() if b not in pool.limbo]
       if stale:
         return stale[i % len(stale)], "used"
       k = "never"
     if k == "zero":
       return 0, "zero"
     if k == "never":
-      cand = [b for b in range(1, self.maxb + 1) if b not in pool.out and b not in pool.ever]
+      cand = [b for b in range(1, self.maxb + 1) if b not in pool.out and b not in pool.ever and b not in pool.limbo]
       if cand:
         return cand[i % len(cand)], "never"
       k = "oor"
@@ -216,70 +240,113 @@ class _Run(object):
     acts = self.flows.get(op["dst"])
     if acts is None:
       kind = "miss"
-      want = [self.msl]
+      want = None
     else:
       kind = "hit"
-      want = [a[1] for a in acts if a[0] == "ctl"]
+      want = expected_outputs(_model_acts(acts), frame, port, PORTS)[1]
       if want:
         self.out.label("hit-with-controller-action")
+        if any(f != frame for _, f in want):
+          self.out.label("hit-rewrite-before-controller-action")
+    if acts is None:
+      want = [(self.msl, frame)]
     pins = self.split_msgs(self.recv(kind), kind)
     if len(pins) != len(want):
       self.fail("packet-in-count", "%s: %d packet-ins for a frame that calls for %d" % (kind, len(pins), len(want)), kind=kind)
-    for m, cfg in zip(pins, want):
-      self.judge_packet_in(m, frame, port, cfg, kind)
+    for m, (cfg, fr) in zip(pins, want):
+      self.judge_packet_in(m, fr, port, cfg, kind)
 
   def use_buffer(self, op, via):
+    pool = self.pool
     bid, how = self.resolve(op["buf"])
     acts = [list(a) for a in op["acts"]]
-    self.out.label("use-%s-%s" % (via, how))
+    prefix, has_bad = _split_bad(acts)
+    self.out.label("use-%s-%s%s" % (via, how, "-badaction" if has_bad else ""))
     if how == "used":
       self.double = True
-    stored = self.pool.out.get(bid)
+    stored = pool.out.get(bid)
+    limbo = pool.limbo.get(bid) if stored is None else None
+    known = stored or limbo
+    raw_acts = encode_actions(_model_acts(acts))
     if via == "pout":
-      in_port = stored[1] if stored else PORTS[op.get("port", 0) % len(PORTS)]
-      self.send(cb.packet_out(self.nxid(), buffer_id=bid, in_port=in_port, actions=encode_actions(acts)), barrier=True)
+      in_port = known[1] if known else PORTS[op.get("port", 0) % len(PORTS)]
+      self.send(cb.packet_out(self.nxid(), buffer_id=bid, in_port=in_port, actions=raw_acts), barrier=True)
     else:
       slot = op["slot"]
       cmd = {"add": cb.OFPFC_ADD, "modify": cb.OFPFC_MODIFY, "modify_strict": cb.OFPFC_MODIFY_STRICT}[op.get("cmd", "add")]
-      self.send(cb.flow_mod(self.nxid(), _match_dst(slot), command=cmd, buffer_id=bid, actions=encode_actions(acts)), barrier=True)
+      self.send(cb.flow_mod(self.nxid(), _match_dst(slot), command=cmd, buffer_id=bid, actions=raw_acts), barrier=True)
       self.flows[slot] = acts
     where = "%s-%s" % (via, how)
     msgs = self.recv(where)
     pins = self.split_msgs(msgs, where)
     emitted = sorted(self.sw.take_emitted())
-    if stored is None:
+    if via == "flow" and (known is None or has_bad):
+      # do not judge whether a flow-mod with an unknown buffer or an unknown action installs the flow
+      self.send(cb.flow_mod(self.nxid(), _match_dst(op["slot"]), command=cb.OFPFC_DELETE), barrier=True)
+      self.flows.pop(op["slot"], None)
+      self.split_msgs(self.recv("flow-del"), "flow-del")
+    if known is None:
       if emitted:
         self.fail("bogus-id-emits", "%s with buffer id %d (%s, not outstanding) emitted %d frames" % (via, bid, how, len(emitted)), via=via, how=how)
       if pins:
         self.fail("bogus-id-packet-in", "%s with buffer id %d (%s, not outstanding) produced a packet-in" % (via, bid, how), via=via, how=how)
-      if via == "flow":
-        # do not judge whether a flow-mod with an unknown buffer installs the flow
-        self.send(cb.flow_mod(self.nxid(), _match_dst(op["slot"]), command=cb.OFPFC_DELETE), barrier=True)
-        self.flows.pop(op["slot"], None)
-        self.split_msgs(self.recv("flow-del"), "flow-del")
       return
-    frame, in_port = stored
-    want_emits, want_ctl = expected_outputs([tuple(a) for a in acts], frame, in_port, PORTS)
-    if emitted != want_emits:
-      self.fail("use-emission", "%s with outstanding buffer %d (frame of %d bytes from port %d) through %r emitted %s, expected %s" % (
-          via, bid, len(frame), in_port, acts, _brief(emitted), _brief(want_emits)), via=via)
-    if len(pins) != len(want_ctl):
-      self.fail("packet-in-count", "%s: %d packet-ins for %d controller actions" % (where, len(pins), len(want_ctl)), kind="use")
+    frame, in_port = known
+    want_emits, want_ctl = expected_outputs(_model_acts(prefix), frame, in_port, PORTS)
+    if any(a[0] in ("set_dl_dst", "set_vlan_vid") for a in prefix):
+      self.out.label("use-with-rewrite")
+    nothing = not emitted and not pins
+    as_expected = emitted == want_emits and len(pins) == len(want_ctl)
+    # what the specification lets happen:
+    #   plain use of an outstanding id        -> the actions run, the id is freed
+    #   a message the switch refuses (unknown action): either nothing at all happens (the id may then still be
+    #     valid: limbo) or the actions before the offending one have run -- then the packet was used, the id is gone
+    #   use of a limbo id                     -> it either was consumed (nothing happens) or is used now
+    if has_bad or limbo is not None:
+      if nothing and (has_bad or limbo is not None):
+        if has_bad:
+          if stored is not None:
+            pool.suspend(bid)
+            self.out.label("refused-use-leaves-id-in-limbo")
+        else:
+          pool.settle(bid)          # consumed before, or consumed now by actions that emit nothing
+        return
+      if not as_expected:
+        self.fail("use-emission", "%s with buffer %d (%s; frame of %d bytes from port %d) through %r emitted %s and %d packet-ins; expected nothing, or %s and %d packet-ins" % (
+            via, bid, how, len(frame), in_port, acts, _brief(emitted), len(pins), _brief(want_emits), len(want_ctl)), via=via)
+        pool.forget(bid)
+        pool.limbo.pop(bid, None)
+        return
+      if has_bad:
+        self.out.label("partial-use-before-bad-action")
+    else:
+      if emitted != want_emits:
+        self.fail("use-emission", "%s with outstanding buffer %d (frame of %d bytes from port %d) through %r emitted %s, expected %s" % (
+            via, bid, len(frame), in_port, acts, _brief(emitted), _brief(want_emits)), via=via)
+      if len(pins) != len(want_ctl):
+        self.fail("packet-in-count", "%s: %d packet-ins for %d controller actions" % (where, len(pins), len(want_ctl)), kind="use")
+    # the packet went through the actions: the id is consumed by this use
+    if limbo is not None:
+      pool.out[bid] = limbo          # it evidently was still stored
+      pool.limbo.pop(bid, None)
     again = False
-    for m, cfg in zip(pins, want_ctl):
+    for m, (cfg, fr) in zip(pins, want_ctl):
       self.out.label("use-with-controller-action")
-      again |= self.judge_packet_in(m, frame, in_port, cfg, "use", using=bid)
+      again |= self.judge_packet_in(m, fr, in_port, cfg, "use", using=bid)
     if not again:
-      self.pool.release(bid)
+      pool.release(bid)
 
   def op_flow(self, op):
     if op.get("buf") is not None:
       return self.use_buffer(op, "flow")
     acts = [list(a) for a in op["acts"]]
     cmd = {"add": cb.OFPFC_ADD, "modify": cb.OFPFC_MODIFY, "modify_strict": cb.OFPFC_MODIFY_STRICT}[op.get("cmd", "add")]
-    self.send(cb.flow_mod(self.nxid(), _match_dst(op["slot"]), command=cmd, actions=encode_actions(acts)), barrier=True)
+    self.send(cb.flow_mod(self.nxid(), _match_dst(op["slot"]), command=cmd, actions=encode_actions(_model_acts(acts))), barrier=True)
     self.flows[op["slot"]] = acts
     self.split_msgs(self.recv("flow"), "flow")
+    if _split_bad(acts)[1]:
+      # whether a flow with an action the switch cannot execute is installed is not judged here
+      self.op_flow_del({"slot": op["slot"]})
 
   def op_flow_del(self, op):
     self.send(cb.flow_mod(self.nxid(), _match_dst(op["slot"]), command=cb.OFPFC_DELETE), barrier=True)
@@ -365,12 +432,14 @@ _ALPHABET = [
   {"o": "flow", "slot": 1, "buf": {"k": "live", "i": 0}, "acts": [["port", 3]], "cmd": "add"},
   {"o": "set_config", "len": 14},
   {"o": "pout", "buf": {"k": "live", "i": 0}, "acts": [["ctl", 16]]},
+  {"o": "pout", "buf": {"k": "live", "i": 0}, "acts": [["port", 2], ["vendor", 0x2320], ["port", 3]]},
+  {"o": "flow", "slot": 1, "buf": None, "acts": [["set_vlan_vid", 5], ["ctl", 20]], "cmd": "add"},
 ]
 
 
 def _enum(tier):
   if tier == "thorough":
-    plans = [(0, 5), (1, 5), (2, 6), (3, 5), (4, 5)]
+    plans = [(0, 5), (1, 5), (2, 5), (3, 5), (4, 5)]
   else:
     plans = [(0, 4), (1, 4), (2, 4)]
   for mb, depth in plans:
@@ -390,14 +459,22 @@ def _s_acts():
     st.integers(1, 5).map(lambda p: ["port", p]), st.integers(1, 4).map(lambda p: ["port", p]),
     st.just(["in_port"]), st.just(["flood"]), st.just(["all"]),
     st.sampled_from(_CFG).map(lambda n: ["ctl", n]), st.integers(0, 0xffff).map(lambda n: ["ctl", n]))
-  return st.lists(one, min_size=0, max_size=3)
+  plain = st.lists(one, min_size=0, max_size=3)
+  rewrite = st.one_of(st.integers(0, 3).map(lambda i: ["set_dl_dst", i]), st.sampled_from([0, 1, 5, 0xfff]).map(lambda v: ["set_vlan_vid", v]))
+  bad = st.sampled_from([["vendor", 0x2320], ["bad", 12], ["bad", 0x7777]])
+  ctl = st.sampled_from(_CFG).map(lambda n: ["ctl", n])
+  # rewrites ahead of an output to the controller; an action the switch cannot execute before / between / after outputs
+  with_rewrite = st.tuples(st.lists(rewrite, min_size=1, max_size=2), st.lists(one, min_size=0, max_size=1), ctl, st.lists(one, min_size=0, max_size=1)).map(
+      lambda t: t[0] + t[1] + [t[2]] + t[3])
+  with_bad = st.tuples(st.lists(one, min_size=0, max_size=2), bad, st.lists(one, min_size=0, max_size=2)).map(lambda t: t[0] + [t[1]] + t[2])
+  return st.one_of(plain, plain, plain, plain, with_rewrite, with_bad)
 
 
 def _s_buf():
   i = st.integers(0, 7)
   live = i.map(lambda n: {"k": "live", "i": n})
   used = i.map(lambda n: {"k": "used", "i": n})
-  return st.one_of(live, live, live, live, live, live, used, used, used,
+  return st.one_of(live, live, live, live, live, live, used, used, used, i.map(lambda n: {"k": "limbo", "i": n}),
                    st.just({"k": "zero"}), i.map(lambda n: {"k": "never", "i": n}), i.map(lambda n: {"k": "oor", "i": n}))
 
 
